@@ -208,7 +208,7 @@ func GenDef(r *rand.Rand, p *Profile) Cfg {
 		case "incr":
 			o.DefI = r.Intn(3)
 		case "string", "sopt":
-			o.DefT = T(pick(r, []string{"def", "", "d e f"}))
+			o.DefT = T(pick(r, []string{"def", "", "d e f", "a\\b \"c\" %s", "\ttab"}))
 		case "int", "iopt":
 			o.DefT = T(pick(r, []string{"0", "7", "-3"}))
 		case "float", "fopt":
